@@ -58,6 +58,7 @@ def rand_pieces(rng, allow_empty_total=True):
 
 def model_resp(shape, i):
     """(status, content-length or None, body bytes the app yields) for the Coq model"""
+    shape = harness.inner(shape)
     kind = shape[0]
     if kind == "len":
         b = b"".join(shape[1])
@@ -111,7 +112,7 @@ def prop_violation(shapes, res):
 
 
 def sh_has_xreq(shape):
-    return shape[0] != "err"
+    return harness.inner(shape)[0] != "err"
 
 
 def rand_schedule(rng, n):
@@ -233,14 +234,29 @@ def run(ctx):
             shapes.append(shape_of(k, ctx.rng, i))
         sessions.append((shapes, rand_schedule(ctx.rng, n), [ctx.rng.random() < 0.5 for _ in shapes]))
 
+    # a non-persistent LAST request (POST, `Connection: close`, with a body) after answered requests,
+    # its bytes reaching the server a few at a time: the head is parsed (persisted = False) while
+    # the body is still on its way
+    for _ in range(ctx.n(40, 600)):
+        n = ctx.rng.randint(1, 4)
+        shapes = [shape_of(ctx.rng.choice(KINDS + ["nolen"]), ctx.rng, i) for i in range(n)]
+        body = bytes(ctx.rng.randrange(256) for _ in range(ctx.rng.randint(8, 40)))
+        shapes[-1] = ("close", body, shapes[-1])
+        k = ctx.rng.choice([1, 3, 7])
+        sched = [("q",)] * n + [("c", None, None), ("s", None, None)] * (2 * n) + [("c", None, None)] + [("s", k, None)] * (400 // k)
+        if ctx.rng.random() < 0.3:
+            sched = rand_schedule(ctx.rng, n)
+        sessions.append((shapes, sched, [ctx.rng.random() < 0.5 for _ in shapes]))
+
     cases, metas = [], []
     failing = []
     for shapes, sched, gen in sessions:
         res = run_one(shapes, sched, gen)
-        nontrivial = len(shapes) >= 2 and any(s[0] in ("nolen", "empty") for s in shapes[1:])
+        closing = shapes[-1][0] == "close"
+        nontrivial = closing or (len(shapes) >= 2 and any(s[0] in ("nolen", "empty") for s in shapes[1:]))
         ctx.case({"shapes": [repr(s) for s in shapes], "schedule": sched, "gen": gen,
                   "framings": res["framings"], "n_responses": len(res["responses"])},
-                 nontrivial=nontrivial, kind="N=%d" % len(shapes))
+                 nontrivial=nontrivial, kind=("closing N=%d" if closing else "N=%d") % len(shapes))
         why = prop_violation(shapes, res)
         if why:
             failing.append((shapes, sched, gen, res, why))
@@ -310,6 +326,8 @@ def run(ctx):
             for k in range(len(shapes)):
                 s2 = shapes[:k] + shapes[k + 1:]
                 g2 = gen[:k] + gen[k + 1:]
+                if any(x[0] == "close" for x in s2[:-1]):
+                    continue
                 r2 = run_one(s2, sched, g2)
                 w2 = prop_violation(s2, r2)
                 if w2:
@@ -317,7 +335,10 @@ def run(ctx):
                     break
         undelimited = any(f in "U?" for f in res["framings"])
         return {
-            "key": "responder-reset-chunkable" if undelimited else "response-body-alias",
+            "key": ("responder-reset-chunkable" if undelimited else
+                    "nonpersistent-request-closed-before-body" if (shapes[-1][0] == "close" and
+                                                                   len(res["responses"]) < len(shapes)) else
+                    "response-body-alias"),
             "shapes": [repr(s) for s in shapes], "schedule": sched, "generator_app": gen,
             "why": why,
             "wire_framings": res["framings"],
